@@ -342,13 +342,16 @@ public:
     m.reset(); m.io = &rio;
     m.loadImage(image);
     for (uint32_t a = 0; a < (image.size() + 3) / 4 && a < W; a++) dirty.push_back(a);
+    uint32_t hi[3] = {0, 0, 0};      // words 200000..200002, which hexsim does not have
     for (uint64_t s = 0; s < budget; s++) {
-      if (m.classifyNext(false, false) != hexref::D_OK) {
+      hexref::Domain d = m.classifyNext(false, false);
+      if (d != hexref::D_OK) {
         // The exit stub's store to word 200001 is the one tolerated excursion (see DESIGN.md 2.4).
+        if (d != hexref::D_DATA_OOB) return false;
         uint8_t inst = m.byteAt(m.pc);
         uint32_t addr = m.breg + (m.oreg | (inst & 15));
-        if ((inst >> 4) == 8 && addr >= W && addr <= W + 2) { m.pc++; m.oreg = 0; continue; }   // skip the store
-        if (inst == 0xD3 && m.areg == 0 && m.mem[1] + 2 >= W && m.mem[1] + 2 <= W + 2) { exitValue = 0; out = rio.out; consumed = rio.inPos; return !rio.missingFileReads; }
+        if ((inst >> 4) == 8 && addr >= W && addr <= W + 2) { hi[addr - W] = m.areg; m.pc++; m.oreg = 0; continue; }   // the store, kept aside
+        if (inst == 0xD3 && m.oreg == 0 && m.areg == 0 && m.mem[1] + 2 >= W && m.mem[1] + 2 <= W + 2) { exitValue = hi[m.mem[1] + 2 - W]; out = rio.out; consumed = rio.inPos; return !rio.missingFileReads; }
         return false;
       }
       m.step();
